@@ -369,12 +369,16 @@ class CaptionSet:
         e.g. if skew == 1.1, and offset is 5, a caption originally
         displayed from 10-11 seconds would instead be at 16-17.1
         """
+        # a Caption object listed under several languages is adjusted once
+        adjusted = set()
         for lang in self.get_languages():
             captions = self.get_captions(lang)
             out_captions = CaptionList()
             for caption in captions:
-                caption.start = caption.start * rate_skew + offset
-                caption.end = caption.end * rate_skew + offset
+                if id(caption) not in adjusted:
+                    adjusted.add(id(caption))
+                    caption.start = caption.start * rate_skew + offset
+                    caption.end = caption.end * rate_skew + offset
                 if caption.start >= 0:
                     out_captions.append(caption)
             self.set_captions(lang, out_captions)
